@@ -199,29 +199,36 @@ _ADDED = {
            " nonlinear_step in units 1e-8..1e8 of the state.",
     "C07": "Also: stop criteria written in either dictionary order, save times as list / tuple / array, start times up to +-1e6, CFL as numpy "
            "scalar, requests bitwise on trajectory times, integrators used before with another CFL and dtlocal. "
-           "Caller's stop / directives / save-time arguments untouched; single steps with every form of a global time step.",
+           "Caller's stop / directives / save-time arguments untouched; single steps with every form of a global time step."
+           " Stamped fields (it > 0) handed to solve(): the outermost public call in progress is the one judged; nozzles with random (also steep) section laws.",
     "C08": "Also: a quarter of the save/monitor purity cases with the dtlocal directive, the verbose directive and the flush option, restart with "
            "another CFL against a fresh object, constructor-level monitors, 2D Euler scenarios. "
            "One stop / directives dictionary reused across calls with other save times."
-           " Save times bitwise on trajectory times (taken from a dry run): trajectory with and without requests compared bit for bit.",
+           " Save times bitwise on trajectory times (taken from a dry run): trajectory with and without requests compared bit for bit."
+           " repeat_large_implicit: 100-160 unknowns in the LU-element-growth regime (repeat / fresh object / restart / extra save, bit for bit); restart from an unrelated field on an object whose last run was watched by a residual monitor vs a fresh object; nozzles with random section laws.",
     "C09": "Also: data amplitudes 1e-30..1e30 (half of them around the limiters' 1e-20 regularisation scale), small disturbances on a constant, "
            "uniform meshes from every mesh class, 1- and 2-cell meshes."
-           " Every returned snapshot (not only the trajectory) within the initial range / total variation, requests just beyond step ends.",
+           " Every returned snapshot (not only the trajectory) within the initial range / total variation, requests just beyond step ends."
+           " A fifth of the runs continue through restart() on an integrator that has just run on other data under a residual monitor.",
     "C10": "Also: jumps up to 1e8, integer-typed admissible data (refused loudly by the unchanged library = skipped; a run that goes through is "
            "judged), integrators used before with dtlocal and another CFL. "
            "At-rest and column-at-rest (dam-break / blast) data, gravities over 1e-2..1e2."
            " Gas units over 50 decades (densities / pressures far below machine epsilon in the caller's units), power-of-two unit twins bit for bit.",
     "C11": "Also: nearly uniform meshes, domain lengths 1e-9..1e9, large meshes; kappa operator on constant + small perturbation, tiny, huge and "
-           "one-ulp-apart seam data; scheme objects reused on a second mesh.",
+           "one-ulp-apart seam data; scheme objects reused on a second mesh."
+           " Linear profiles sampled as cell averages at the midpoints of mesh.xf (computed by the monitor); integer-typed unit impulses in the kappa operator.",
     "C12": "Also: nearly equal pairs (ratio 1 +- 1e-15..1e-3), integer-typed slopes, sub-arrays by sign pattern / position / shape compared bit "
            "for bit with the full-array call.",
     "C13": "Also: a quarter of the twins with dtlocal, large problems, units of the nozzle section area, twins sharing scheme / model objects. "
-           "Tolerances include ulp(x)/dx_min on sliver meshes (bitwise classes unchanged).",
+           "Tolerances include ulp(x)/dx_min on sliver meshes (bitwise classes unchanged)."
+           " Implicit twins that start on a kink of the operator (forward and backward difference quotients > 1e-3 apart) skipped; unit twins judged with the condition numbers of both runs' step matrices.",
     "C14": "Also: a quarter of the twins with dtlocal, large periodic meshes beyond the exhaustive sizes, grids periodic in one direction only. "
            "Streams with one or two exceptional cells (first / last cell preferred)."
-           " Domains of 1e-9..1e9; streams with an exceptional cell at the seam sampled on purpose.",
+           " Domains of 1e-9..1e9; streams with an exceptional cell at the seam sampled on purpose."
+           " Scheme and model objects used beforehand on a stretched mesh of the same number of cells, length and origin (30 % of the shift cases).",
     "C15": "Also: insup angles on the axes (0, -0.0, 90, 180, 270, 360; int and float), twins sharing one model object."
-           " Fortran-ordered and strided-view component arrays (the layout the library itself builds from a uniform state) against their C-contiguous copies.",
+           " Fortran-ordered and strided-view component arrays (the layout the library itself builds from a uniform state) against their C-contiguous copies."
+           " Steep admissible data (neighbours 10-250 times apart: face states of the unlimited extrapolation overshoot zero) in vs1d and the symmetry twins.",
     "C16": "Also: integer-typed interior states and parameters, nearly-at-rest states (wall reversal judged relative to the normal component "
            "itself), normals taken from the mesh, alternating-side call histories on one model object."
            " Slow flows (Mach 1e-8..1e-1) in the inverse problems, conditioning eps/M added to the tolerance.",
@@ -232,11 +239,13 @@ _ADDED = {
            " Mach numbers up to 1e6 (htot / rttot judged without the M^2 conditioning of the pressure; definitions that overflow a double not compared).",
     "C18": "Also: fields carrying another model object of the same family, domain lengths 1e-9..1e9, large meshes; only admissible cells are "
            "judged; call histories with other CFL numbers (time steps recomputed by the monitor). "
-           "Thin layers / rarefied states over 26 decades (formula of the statement as reference where the eigenvalues are ill-conditioned); under dtlocal the update of the last iteration recomputed with one time step per cell (forward Euler, implicit, Crank-Nicolson).",
+           "Thin layers / rarefied states over 26 decades (formula of the statement as reference where the eigenvalues are ill-conditioned); under dtlocal the update of the last iteration recomputed with one time step per cell (forward Euler, implicit, Crank-Nicolson)."
+           " Nozzles with random section laws, smooth or steep (sudden expansion, sharp throat, fast growth): the time step must not depend on the section.",
     "C19": "Also: sources returning python floats, numpy scalars / 0-d arrays, lists, stored arrays and state components; integer-typed fields; "
            "section areas in any units; interleaved discretisations of one model object; three consecutive rhs calls. "
            "Sources with a defaulted third parameter (callable objects and lambdas)."
-           " Call histories: the same nozzle model handed to another discretisation before the first is used, after it was used once, or used itself in between.",
+           " Call histories: the same nozzle model handed to another discretisation before the first is used, after it was used once, or used itself in between."
+           " One callable object declared for several equations; the caller's source list must still hold the very objects he declared.",
     "C20": "Also: every mesh judged again after other meshes were built; 2D meshes judged against the constructor arguments; positional / keyword "
            "/ default / numpy-integer call forms; integer-typed morphings; large meshes.",
 }
